@@ -7,6 +7,7 @@ From Coq Require Import List String NArith ZArith Bool Arith Lia.
 From EvyV Require Import Base FmtAst Format FormatProofs Pratt PrattProofs Parser ParserProofs ParserRules ParserScope ParserCursor
   FormatParse FormatParseProofs FormatParseListProofs FormatParseStmtProofs FormatParseTargetProofs FormatParseBlockProofs
   FormatParsePlainProofs.
+From EvyV Require FormatNlProofs.
 From EvyV.Gen Require Import Prec.
 Import ListNotations.
 Local Open Scope nat_scope.
@@ -949,3 +950,43 @@ Section Funcs.
         exists s'. split; [|exact Q]. rewrite P2. cbn [rev app]. rewrite <- !app_assoc. reflexivity.
   Qed.
 End Funcs.
+
+(* ================================================================ *)
+(** * The statement kinds of the re-parsed tree are one step of the blank-line logic (C07) *)
+Definition pkind (s : stmt) : skind :=
+  match s with Parser.SEmpty => KEmpty | Parser.SFunc _ _ _ _ | Parser.SOn _ _ _ => KFunc | _ => KStmt end.
+
+Lemma kind_blank x : stmt_kind x <> KComment -> is_blank x = skind_eqb (stmt_kind x) KEmpty.
+Proof. destruct x; try reflexivity. cbn [stmt_kind is_blank]. destruct (is_empty c); [reflexivity|]. intro H. contradiction H. reflexivity. Qed.
+
+Lemma kind_tree x : is_blank x = false -> stmt_kind x <> KComment -> pkind (stmt_tree x) = stmt_kind x.
+Proof.
+  destruct x; try reflexivity.
+  - cbn [is_blank stmt_kind]. destruct (is_empty c); [discriminate|]. intros _ H. contradiction H. reflexivity.
+  - intros _ _. destruct ifb. reflexivity.
+Qed.
+
+Lemma prog_trees_skeleton nl : forall l i e, Forall (fun x => stmt_kind x <> KComment) l ->
+  map pkind (prog_trees nl i e l) = skel_step_loop nl i e (map stmt_kind l).
+Proof.
+  induction l as [|x l IH]; intros i e H; [reflexivity|]. inversion H as [|? ? Hx Hl]; subst.
+  cbn [prog_trees map skel_step_loop]. rewrite <- (kind_blank x Hx). destruct (is_blank x) eqn:Eb.
+  - destruct e; cbn [map app]; rewrite (IH _ _ Hl); reflexivity.
+  - cbn [map]. rewrite map_app, (IH _ _ Hl), (kind_tree x Eb Hx). destruct (mem_nat i nl); reflexivity.
+Qed.
+
+Lemma reparse_skeleton_step (p : fprog) : p <> [] -> Forall (fun x => stmt_kind x <> KComment) p ->
+  let nl := nl_after (fix_nl current_fixes) (map stmt_kind p) in
+  let ks' := map pkind (prog_trees nl 0 false p) in
+  ks' = skel_step (fix_nl current_fixes) (map stmt_kind p) /\
+  nl_after (fix_nl current_fixes) ks' = [] /\
+  skel_step (fix_nl current_fixes) ks' = ks'.
+Proof.
+  intros Hne Hc nl ks'.
+  assert (E : ks' = skel_step (fix_nl current_fixes) (map stmt_kind p)).
+  { unfold ks', nl, skel_step. rewrite (prog_trees_skeleton _ p 0 false Hc). destruct p; [contradiction|reflexivity]. }
+  split; [exact E|]. rewrite E. split; [apply FormatNlProofs.skel_step_fixed_stable | apply FormatNlProofs.skel_step_fixed_idempotent].
+Qed.
+
+Lemma stmt_keeps_tables B fuel s r s' : parse_statement B fuel s = Ok r s' -> bodies s' = bodies s /\ hds s' = hds s.
+Proof. intro H. pose proof (stmt_kb B fuel s r s' H) as K. unfold kb in K. injection K as K1 K2. auto. Qed.
